@@ -498,6 +498,7 @@ class OverhangFilter(Module):
     def _sensitivity(self, dxprint):
         x = self.sig_in[0].state
         xprint = self.sig_out[0].state
+        dxprint = dxprint.copy()  # The seed is accumulated into below; do not modify the caller's array
         dx = np.zeros_like(dxprint)
 
         # Size of the domain
